@@ -101,6 +101,12 @@ claims.update({
    'Not decided: equivalence to sequential reference models over operation sequences; Queue/Ring index arithmetic; expiry timing.',
    'DESIGN.md 3.C16'),
 })
+claims.update({
+ 'C17': ('other', 'single-decode-path rules on all paths, loader-table agreement, UseNumber-before-Decode ordering, numeric type-switch coverage, env-expansion gating, identity of the key normaliser, recursion coverage of the key-lowering walk',
+   'YAML/TOML are converted to JSON and decoded by the very same JSON entry point with the caller\'s target and options (conf and mapping variants), conversion errors returned; extension table maps .json/.yaml/.yml/.toml to exactly these loaders; every jsonx decoder enables UseNumber before Decode; the YAML converter turns all 12 Go numeric types into json.Number and recurses through slices and maps; os.ExpandEnv only under the env option and only in core/conf; the canonical-key function given to the unmarshaller is the same toLowerCase that normalised the document keys; the key-lowering walk recurses through maps and every slice element at every depth.',
+   'Not decided: equality of results across formats and agreement with encoding/json (relations over decoded values), e.g. aliasing of decoded map elements.',
+   'DESIGN.md 3.C17'),
+})
 not_built_reason = 'static rules designed (DESIGN.md section 3) but not built yet in this revision'
 
 checks, na = [], []
